@@ -41,6 +41,10 @@ func (cx *Ctx) runC07() {
 		realProcs = 8
 	}
 	gc := genCfg{allowRandomGreedy: false, nastyPct: 5, multiPct: 35, bigPct: 3}
+	// C07 compares results; runs that do not finish within a modest simulated-time budget are skipped
+	// (counted as BUDGET in the evidence), whether they ever finish is C01's question.
+	cx.Budgets.Ticks = 20_000_000
+	cx.Budgets.Frame = 2_000_000
 	known := cx.replayKnown()
 
 	r := rng{s: mix(cx.Seed, 0xC07)}
@@ -52,10 +56,13 @@ func (cx *Ctx) runC07() {
 		jobs[i] = &spec.Job{ID: i, Kind: "multi", Calls: []spec.Call{c}, Res: c07Resolutions(&r, k), Budgets: cx.Budgets}
 		fams[i] = fam
 	}
+	cx.phase("C07: main batch")
 	results := cx.sim.Run(jobs, nil)
+	cx.phase("C07: analysing")
+	cx.slowest(results, 12)
 
 	// ---- (a) resolution invariance, (c) arguments untouched
-	evals := 0
+	evals, clockVaried, entropyVaried := 0, 0, 0
 	distinct := map[string]bool{}
 	siteStats := map[string]*[3]int{}
 	permKinds := map[string]int{}
@@ -72,7 +79,15 @@ func (cx *Ctx) runC07() {
 		}
 		famCount[fams[i]]++
 		nontrivial := false
-		for _, o := range ocs {
+		for j, o := range ocs {
+			if j < len(jr.Job.Res) {
+				if jr.Job.Res[j].T0 != 0 {
+					clockVaried++
+				}
+				if jr.Job.Res[j].Entropy != 0 {
+					entropyVaried++
+				}
+			}
 			evals++
 			ticks += o.Ticks
 			verdicts[o.Verdict]++
@@ -115,7 +130,7 @@ func (cx *Ctx) runC07() {
 		// which resolution differs first
 		j := 1
 		for ; j < len(ocs); j++ {
-			if ocs[j].Hash != ocs[0].Hash || ocs[j].Verdict != ocs[0].Verdict {
+			if ocs[j].Verdict != "BUDGET" && (ocs[j].Hash != ocs[0].Hash || ocs[j].Verdict != ocs[0].Verdict) {
 				break
 			}
 		}
@@ -129,12 +144,15 @@ func (cx *Ctx) runC07() {
 	_ = sitePermKinds
 
 	// ---- (b) history independence
+	cx.phase("C07: histories")
 	histStats := cx.c07Histories(&r, nHist, gc)
 
 	// ---- (d) real-runtime adjunct + fidelity
+	cx.phase("C07: real-runtime adjunct")
 	realStats := cx.c07Real(&r, nReal, realProcs, gc, results)
 
 	// ---- determinism self-test of the simulator (small sample, every run)
+	cx.phase("C07: determinism sample")
 	st := cx.determinismSample(jobs, results, 30)
 
 	sites := map[string]any{}
@@ -158,7 +176,7 @@ func (cx *Ctx) runC07() {
 		"families":                   famCount,
 		"sites":                      sites,
 		"permutations_by_kind":       permKinds,
-		"faults_fired":               map[string]int{"map-order permutation (non-identity)": sumNonIdentity(permKinds), "clock origin varied": evals - nSpecs, "entropy varied": evals - nSpecs},
+		"faults_fired":               map[string]int{"map-order permutation (non-identity)": sumNonIdentity(permKinds), "runs with a non-zero clock origin": clockVaried, "runs with non-default entropy": entropyVaried},
 		"histories":                  histStats,
 		"real_runtime_adjunct":       realStats,
 		"determinism_selftest":       st,
@@ -214,6 +232,9 @@ func (cx *Ctx) differs(c spec.Call, a, b spec.Resolution, full bool) (bool, []sp
 		if o.Verdict == "HARNESS" || o.Verdict == "TIMEOUT" {
 			return false, nil
 		}
+	}
+	if ocs[0].Verdict == "BUDGET" || ocs[1].Verdict == "BUDGET" {
+		return false, ocs
 	}
 	return ocs[0].Hash != ocs[1].Hash || ocs[0].Verdict != ocs[1].Verdict, ocs
 }
@@ -472,10 +493,27 @@ func (cx *Ctx) c07Real(r *rng, n, procs int, gc genCfg, simResults []JobResult) 
 	if cx.RealBin == "" {
 		return map[string]any{"skipped": "no real worker"}
 	}
-	if n > len(simResults) {
-		n = len(simResults)
+	// take the first n specs of the main run whose simulated runs all finished (the real runtime has no
+	// budget: an input that hangs would only burn the wall-clock backstop); their simulated outcome is known
+	var elig []JobResult
+	for _, jr := range simResults {
+		if len(elig) >= n {
+			break
+		}
+		ok := jr.Res != nil && jr.Res.Error == "" && len(jr.Res.Outcomes) > 0
+		if ok {
+			for _, o := range jr.Res.Outcomes {
+				if o.Verdict != "OK" && o.Verdict != "PANIC" {
+					ok = false
+				}
+			}
+		}
+		if ok {
+			elig = append(elig, jr)
+		}
 	}
-	// take the first n specs of the main run: their simulated identity outcome is known
+	simResults = elig
+	n = len(elig)
 	batch := 25
 	var jobs []*spec.Job
 	var spans [][2]int
